@@ -117,12 +117,20 @@ func (p *MP4ChunkParser) readUntil(contentEnd int) error {
 		return nil
 	}
 	for {
-		if contentEnd > len(p.buf) {
-			// Resize buffer
-			newBuf := make([]byte, contentEnd-len(p.buf)+1024)
-			p.buf = append(p.buf, newBuf...)
+		if contentEnd > len(p.buf) && p.contentEnd == len(p.buf) {
+			// Buffer is full. Grow it, at most doubling, so that memory follows the data
+			// actually received and not a size field that may be wrong.
+			grow := contentEnd - len(p.buf) + 1024
+			if maxGrow := len(p.buf) + 64*1024; grow > maxGrow {
+				grow = maxGrow
+			}
+			p.buf = append(p.buf, make([]byte, grow)...)
 		}
-		n, err := p.r.Read(p.buf[p.contentEnd:contentEnd])
+		readEnd := contentEnd
+		if readEnd > len(p.buf) {
+			readEnd = len(p.buf)
+		}
+		n, err := p.r.Read(p.buf[p.contentEnd:readEnd])
 		p.contentEnd += n
 		if err == io.EOF && p.contentEnd >= contentEnd {
 			// io.EOF delivered together with the last bytes asked for.
